@@ -331,6 +331,49 @@ func c04Edits() []xzEdit {
 			return true
 		}})
 	}
+	// edits of two records that keep every sum unchanged (a reader that only compares totals
+	// would accept them)
+	e = append(e,
+		xzEdit{Name: "index-records-swapped", PerBlock: true, Make: func(p *xzPieces, bi int) bool {
+			if bi+1 >= len(p.recs) || p.recs[bi] == p.recs[bi+1] {
+				return false
+			}
+			p.recs[bi], p.recs[bi+1] = p.recs[bi+1], p.recs[bi]
+			p.resealIndexFooter()
+			return true
+		}},
+		xzEdit{Name: "index-unpadded-size-shifted", PerBlock: true, Make: func(p *xzPieces, bi int) bool {
+			if bi+1 >= len(p.recs) || p.recs[bi][0] < 8 {
+				return false
+			}
+			p.recs[bi][0] -= 4
+			p.recs[bi+1][0] += 4
+			p.resealIndexFooter()
+			return true
+		}},
+		xzEdit{Name: "index-uncompressed-size-shifted", PerBlock: true, Make: func(p *xzPieces, bi int) bool {
+			if bi+1 >= len(p.recs) || p.recs[bi][1] < 1 {
+				return false
+			}
+			p.recs[bi][1]--
+			p.recs[bi+1][1]++
+			p.resealIndexFooter()
+			return true
+		}},
+		xzEdit{Name: "index-sizes-exchanged-between-fields", PerBlock: true, Make: func(p *xzPieces, bi int) bool {
+			// unpadded +4 on one record, -4 on the last one; uncompressed the other way round
+			l := len(p.recs) - 1
+			if bi >= l || p.recs[l][0] < 8 || p.recs[bi][1] < 1 {
+				return false
+			}
+			p.recs[bi][0] += 4
+			p.recs[l][0] -= 4
+			p.recs[bi][1]--
+			p.recs[l][1]++
+			p.resealIndexFooter()
+			return true
+		}},
+	)
 	e = append(e,
 		idxEdit("index-padding-nonzero", func(p *xzPieces) bool {
 			n := ref.IndexBytes(p.recs, -1, 1)
